@@ -156,7 +156,7 @@ Held(v) == st[v] # "foreign"       \* the account manager answers AccountByPubli
 Init ==
     /\ force \in {0} \cup DocIds          \* New() fetches inline
     /\ st \in [Vals -> States]
-    /\ controlled = {}                    \* (the round New() starts on its own is not part of the histories)
+    /\ controlled = {}                    \* (the round New() starts on its own is the first Round of a recorded history)
     /\ memo = [k \in MemoKeys |-> NoMemo]
     /\ last = NoLast
 
